@@ -32,6 +32,9 @@ V(e) ==
     ELSE IF IsReset(e.op) /\ e.set.base1 /\ e.got.base1 THEN "option_base_survived"
     ELSE IF IsReset(e.op) /\ e.set.rnd /\ ~e.got.rnd THEN "random_sequence_state_survived"
     ELSE IF IsReset(e.op) /\ ~e.got.dimok THEN "array_survived"
+    \* got.baseflag: after a further CLEAR, OPTION BASE 1 : DIM : ERASE of that array, subscript 0 is still refused (an explicit
+    \* OPTION BASE is not dropped with the last array; only the implicit one DIM sets is) - CLEAR must forget how the base was set
+    ELSE IF ~e.got.baseflag THEN "how_the_array_base_was_set_survived_clear"
     ELSE "ok"
 INSTANCE OracleTrace WITH Verdict <- V
 =============================================================================
